@@ -84,6 +84,28 @@ def check_array_safe(ctx: Ctx, rule: str, printer: str = "numpy", jax: bool = Fa
             )
             continue
         frs = emitted_fragments(M, printer, r.func)
+        # ... and the texts the method can return as a whole (a function name chosen in a variable - `f"{func}({a}, {b})"`
+        # with func = "max" - only shows when the pieces are put together)
+        try:
+            from sa import av as _avp
+
+            from . import util as _up
+
+            for everything_ in (False, True):
+                val_ = _up.value_of(ctx, r.func, everything=everything_)
+
+                def texts(t_):
+                    # every text in the value, at any depth, with its holes blanked; messages of exceptions are not emitted code
+                    if not isinstance(t_, tuple) or not t_ or t_[0] == "raise":
+                        return
+                    if t_[0] == "s":
+                        frs.append("".join(p_[1] if p_[0] == "lit" else "X" for p_ in t_[1]))
+                    for x_ in t_:
+                        texts(x_)
+
+                texts(val_)
+        except Exception:
+            pass
         bad = []
         for fr in frs:
             for rx, what in SCALAR_ONLY:
